@@ -533,7 +533,7 @@ func main() {
 	var samples []string
 	for i := 0; i < n; i++ {
 		r := &rng{s: seed*7919 + uint64(i)}
-		opts := genOpts{Ties: i%5 != 4, MaxDepth: 1 + i%3}
+		opts := genOpts{Ties: i%5 != 4, MaxDepth: 1 + i%3, Collide: i%2 == 0}
 		if i%3 == 1 { // 1..9 buses for ExportNetwork
 			opts.Buses = 1 + (i/3)%9
 		}
